@@ -312,3 +312,107 @@ def c18(tier, replay_file=None):
     except ToolError as e:
         res.tool_errors.append(str(e))
     return res.finish()
+
+
+# ------------------------------------------------------------------ C13
+
+def strip_expect(cases_path, out_path):
+    """The recorder only needs id/json/json2."""
+    with open(cases_path) as f, open(out_path, "w") as g:
+        for l in f:
+            if l.strip():
+                c = json.loads(l)
+                g.write(json.dumps({"id": c["id"], "json": c["json"], "json2": c["json2"]}, separators=(",", ":")) + "\n")
+
+
+def c13(tier, replay_file=None):
+    prop = "C13"
+    res = Result(prop, tier, "translation_validation")
+    try:
+        exe = build_harness()
+        wd = workdir("%s-%s" % (prop, "replay" if replay_file else tier))
+        if replay_file:
+            rp = json.load(open(replay_file))
+            cpath = os.path.join(wd, "cases.ndjson")
+            write_ndjson(cpath, [rp["case"]])
+        else:
+            t0 = time.time()
+            cpath, g = generate(wd, "FancyGen", {"Size": 1 if tier == "quick" else 2}, timeout=3600, mem="12g")
+            log("[tlc] FancyGen: %s in %.1fs" % (g.printed("GENERATED"), time.time() - t0))
+        ipath = os.path.join(wd, "inputs.ndjson")
+        strip_expect(cpath, ipath)
+        rpath = os.path.join(wd, "results.ndjson")
+        t0 = time.time()
+        run_tmv(exe, ["load", ipath], stdout_path=rpath)
+        cfiles, n = split_file(cpath, PROCS, wd, "case")
+        rfiles, n2 = split_file(rpath, PROCS, wd, "res")
+        log("[record] real loader on %d programs x 2 spellings, %.1fs" % (n, time.time() - t0))
+        if n != n2:
+            raise ToolError("recorder returned %d results for %d cases" % (n2, n))
+        # one judge process per (cases, results) pair
+        mod = write_cfg(wd, "FancyCheck", None, {"KnownIds": tla_set(known_ids(prop) + known_ids("C14")), "Prop": tla_str(prop)})
+        runs = [TlcRun(wd, mod + ".tla", mod + ".cfg", env={"CASES": c, "RESULTS": r}, name="judge_%d" % i, timeout=3000) for i, (c, r) in enumerate(zip(cfiles, rfiles))]
+        t0 = time.time()
+        run_tlc_many(runs)
+        log("[tlc] FancyCheck: %d processes, %.1fs" % (len(runs), time.time() - t0))
+        judged = nontriv = acc = rej = 0
+        bad, kn = [], []
+        for r in runs:
+            err = r.other_error()
+            if err:
+                res.tool_errors.append("%s: %s" % (r.name, err))
+                continue
+            for line in r.printed("JUDGED"):
+                v = parse_tla_value(line)
+                judged, nontriv, acc, rej = judged + v[1], nontriv + v[2], acc + v[3], rej + v[4]
+            bad += [(parse_tla_value(l)[1], sorted(parse_tla_value(l)[2])) for l in r.printed("BAD")]
+            kn += [(parse_tla_value(l)[1], sorted(parse_tla_value(l)[2])) for l in r.printed("KNOWN")]
+            res.drift += [l[:600] for l in r.printed("DRIFT")]
+        need = {cid for cid, _ in bad[:10]} | ({1} if replay_file else set())
+        case_by_id, result_by_id = {}, {}
+        samples = []
+        with open(cpath) as f:
+            for i, l in enumerate(f):
+                if not l.strip():
+                    continue
+                c = json.loads(l)
+                if c["id"] in need:
+                    case_by_id[c["id"]] = c
+                if i in (0, n // 2, n - 1):
+                    samples.append({"program": c["json"], "second_spelling": c["json2"], "expected_mappings": len(c["expect"]["mappings"]), "expected_accept": c["expect"]["ok"]})
+        if need:
+            for r in read_ndjson(rpath):
+                if r["id"] in need:
+                    result_by_id[r["id"]] = r
+        if replay_file:
+            if res.tool_errors:
+                log("TOOL-ERROR: " + res.tool_errors[0])
+                return 2
+            c, r = json.load(open(replay_file))["case"], read_ndjson(rpath)[0]
+            log("  program:  " + json.dumps(c["json"]))
+            log("  expected: " + json.dumps(c["expect"]["mappings"])[:1500])
+            log("  actual:   " + json.dumps(r["r1"])[:1500])
+            if bad:
+                log("VIOLATION property=C13 replay=%s clause=%s" % (replay_file, ",".join(bad[0][1])))
+                return 1
+            log("replay: C13 holds for this program with the current tree")
+            return 0
+        report(res, bad, kn, case_by_id, result_by_id, "E3-layout-language")
+        if judged != n and not res.tool_errors:
+            res.tool_errors.append("judged %d of %d cases" % (judged, n))
+        res.coverage = {
+            "programs": judged, "disagreements_checked": judged * 2, "samples": samples,
+            "accepted_by_real_loader": acc, "rejected_by_real_loader": rej, "nontrivial_programs": nontriv,
+            "accept_reject_disagreements_with_spec": len(res.drift),
+            "rule": "programs of the bounded grammar of FancyGen.tla (alias blocks with several definitions, multi-key definitions and extra output keys; single, row and "
+                    "repeat-only mappings with 0-3 alias/plain modifiers, aliases on the output, repeat and absorbing side; every printable character and space at "
+                    "several positions of every row with/without RIGHTSHIFT; mapping + repeat-only pairs), each in two spellings, run through the real "
+                    "parse_layout_from_json + convert and compared block-wise with Fancy!Expand by TLC. disagreements_checked = comparisons made (expansion and spelling per program).",
+            "exhaustive": True,
+        }
+        res.assumptions = ["the US-QWERTY tables of Fancy.tla (independent transcription)", "bounded grammar; see FancyGen.tla"]
+        if not res.violations and not res.tool_errors and nontriv < 100:
+            res.tool_errors.append("vacuous run: only %d non-trivial programs" % nontriv)
+    except ToolError as e:
+        res.tool_errors.append(str(e))
+    return res.finish()
